@@ -31,7 +31,7 @@ def gen(rng, index, tier):
         raw = sorted(raw, key=lambda r: sum(len(b) for b in r))
         meta["family"] = "late"
     else:
-        raw, meta = lib.gen_dataset(rng, nmax=nmax, mmax=5, family=fam)
+        raw, meta = lib.gen_dataset(rng, nmax=nmax, mmax=5, family=fam, big=0.02)
     config = rng.choice(biocommon.STARTER_CONFIGS)
     if any(s in config for s in ("borda", "bioco", "pickaperm")) and rng.random() < 0.8:
         sch = common.family_scheme(rng, rng.choice(["unifying", "unifying", "unifying_half", "induced"]))
